@@ -32,48 +32,75 @@ def partyRule (t : Tree) : List String :=
   (if !orcid then ["ORCID_ID_MISSING"] else []) ++ (if !userid then ["USER_ID_MISSING"] else []) ++
   (if !email then ["EMAIL_MISSING"] else [])
 
+/-! `_dataset_rule`, one definition per recommendation (the Python function appends them in this order) -/
+
+def dsAbstractW (cs : List Tree) : List String :=
+  match lastNamed "abstract" cs with
+  | some a =>
+      let content := getTextContent a
+      if content != "" then (if pyWordCount content.toList < 20 then ["DATASET_ABSTRACT_TOO_SHORT"] else [])
+      else ["DATASET_ABSTRACT_MISSING"]
+  | none => ["DATASET_ABSTRACT_MISSING"]
+
+def dsCoverageW (cs : List Tree) : List String :=
+  match lastNamed "coverage" cs with
+  | some c => if c.children.isEmpty then ["DATASET_COVERAGE_MISSING"] else []
+  | none => ["DATASET_COVERAGE_MISSING"]
+
+def dsDataTableW (cs : List Tree) : List String := if (lastNamed "dataTable" cs).isNone then ["DATATABLE_MISSING"] else []
+
+def dsRightsW (cs : List Tree) : List String :=
+  match lastNamed "intellectualRights" cs with
+  | some r => if truthy r.content then [] else ["INTELLECTUAL_RIGHTS_MISSING"]
+  | none => ["INTELLECTUAL_RIGHTS_MISSING"]
+
+/-- keywords over ALL keyword sets of the dataset -/
+def keywordTotal (cs : List Tree) : Nat :=
+  ((cs.filter (fun c => c.name == "keywordSet")).map (fun k => (findAllChildren "keyword" k).length)).sum
+
+def dsKeywordsW (cs : List Tree) : List String :=
+  if (cs.filter (fun c => c.name == "keywordSet")).isEmpty then ["KEYWORDS_MISSING"]
+  else if keywordTotal cs < 5 then ["KEYWORDS_INSUFFICIENT"] else []
+
+def dsMethodsW (cs : List Tree) : List String := if (lastNamed "methods" cs).isNone then ["DATASET_METHOD_STEPS_MISSING"] else []
+def dsProjectW (cs : List Tree) : List String := if (lastNamed "project" cs).isNone then ["DATASET_PROJECT_MISSING"] else []
+
 def datasetRule (t : Tree) : List String :=
   let cs := t.children
-  let abstractW := match lastNamed "abstract" cs with
-    | some a =>
-        let content := getTextContent a
-        if content != "" then (if pyWordCount content.toList < 20 then ["DATASET_ABSTRACT_TOO_SHORT"] else [])
-        else ["DATASET_ABSTRACT_MISSING"]
-    | none => ["DATASET_ABSTRACT_MISSING"]
-  let coverageW := match lastNamed "coverage" cs with
-    | some c => if c.children.isEmpty then ["DATASET_COVERAGE_MISSING"] else []
-    | none => ["DATASET_COVERAGE_MISSING"]
-  let dtW := if (lastNamed "dataTable" cs).isNone then ["DATATABLE_MISSING"] else []
-  let irW := match lastNamed "intellectualRights" cs with
-    | some r => if truthy r.content then [] else ["INTELLECTUAL_RIGHTS_MISSING"]
-    | none => ["INTELLECTUAL_RIGHTS_MISSING"]
-  let ksets := cs.filter (fun c => c.name == "keywordSet")
-  let kwW := if ksets.isEmpty then ["KEYWORDS_MISSING"]
-             else if (ksets.map (fun k => (findAllChildren "keyword" k).length)).sum < 5 then ["KEYWORDS_INSUFFICIENT"] else []
-  let mW := if (lastNamed "methods" cs).isNone then ["DATASET_METHOD_STEPS_MISSING"] else []
-  let pW := if (lastNamed "project" cs).isNone then ["DATASET_PROJECT_MISSING"] else []
-  abstractW ++ coverageW ++ dtW ++ irW ++ kwW ++ mW ++ pW
+  dsAbstractW cs ++ dsCoverageW cs ++ dsDataTableW cs ++ dsRightsW cs ++ dsKeywordsW cs ++ dsMethodsW cs ++ dsProjectW cs
 
 def missingOrEmpty (o : Option Tree) : Bool := match o with | some n => !truthy n.content | none => true
 
-def dataTableRule (t : Tree) : List String :=
-  let cs := t.children
-  let descW := if cs.any (fun c => c.name == "entityDescription" && truthy c.content) then [] else ["DATATABLE_DESCRIPTION_MISSING"]
+/-- the nodes `_data_table_rule` looks at: the FIRST physical; in it the last size / authentication / dataFormat; the record
+    delimiter of the first textFormat of that dataFormat if it has one, else the last one directly under physical; the first
+    numberOfRecords of the table -/
+structure DtParts where
+  size : Option Tree
+  auth : Option Tree
+  nrec : Option Tree
+  rd : Option Tree
+
+def dtParts (cs : List Tree) : DtParts :=
   let phys := firstNamed "physical" cs
   let pk := match phys with | some p => p.children | none => []
-  let auth := lastNamed "authentication" pk
-  let size := lastNamed "size" pk
   let df := lastNamed "dataFormat" pk
   let rd0 := lastNamed "recordDelimiter" pk
   let tf := match df with | some d => firstNamed "textFormat" d.children | none => none
   let rd := match tf with
     | some f => (match firstNamed "recordDelimiter" f.children with | some r => some r | none => rd0)
     | none => rd0
-  let nrec := firstNamed "numberOfRecords" cs
-  descW ++ (if missingOrEmpty size then ["DATATABLE_SIZE_MISSING"] else []) ++
-  (if missingOrEmpty auth then ["DATATABLE_MD5_CHECKSUM_MISSING"] else []) ++
-  (if missingOrEmpty nrec then ["DATATABLE_NUMBER_OF_RECORDS_MISSING"] else []) ++
-  (if missingOrEmpty rd then ["DATATABLE_RECORD_DELIMITER_MISSING"] else [])
+  { size := lastNamed "size" pk, auth := lastNamed "authentication" pk, nrec := firstNamed "numberOfRecords" cs, rd := rd }
+
+def dtDescW (cs : List Tree) : List String :=
+  if cs.any (fun c => c.name == "entityDescription" && truthy c.content) then [] else ["DATATABLE_DESCRIPTION_MISSING"]
+
+def dataTableRule (t : Tree) : List String :=
+  let cs := t.children
+  let P := dtParts cs
+  dtDescW cs ++ (if missingOrEmpty P.size then ["DATATABLE_SIZE_MISSING"] else []) ++
+  (if missingOrEmpty P.auth then ["DATATABLE_MD5_CHECKSUM_MISSING"] else []) ++
+  (if missingOrEmpty P.nrec then ["DATATABLE_NUMBER_OF_RECORDS_MISSING"] else []) ++
+  (if missingOrEmpty P.rd then ["DATATABLE_RECORD_DELIMITER_MISSING"] else [])
 
 def descriptionRule (parentName : Option String) (t : Tree) : List String :=
   if getTextContent t != "" then []
